@@ -84,27 +84,40 @@ Definition after_read (s : sstate) (chunk : bytes) (acc : list bytes) : pres * s
    When the schedule is exhausted the reader returns io.EOF and readTlvStream returns nil. *)
 Inductive rditem := RReq (k : N) | RIgn (k : N).
 
+(* A full buffer: Read(recvBuf[len:]) gets an empty slice and a socket answers (0, nil) at once, taking nothing from the
+   connection; the loop then parses what it has and applies the compaction rule.  `settle` is that iteration (the identity when
+   there is room).  If it frees nothing the same happens for ever: a spin. *)
+Definition settle (s : sstate) (acc : list bytes) : pres * sstate * list bytes :=
+  if c_recvBufSize - recvOff s =? 0 then after_read s [] acc else (PBreak, s, acc).
+
 (* result: outcome, frames (oldest first), bytes consumed from the stream, final state *)
 Fixpoint run_stream (sched : list rditem) (s : sstate) (rest : bytes) (acc : list bytes) (consumed : N)
   : sres * list bytes * N * sstate :=
   match sched with
   | [] => (SOk, rev acc, consumed, s)
   | it :: sched' =>
-    let free := c_recvBufSize - recvOff s in
-    if free =? 0 then (SSpin, rev acc, consumed, s)        (* Read(recvBuf[len:]) returns (0, nil) for ever *)
-    else match it with
-    | RIgn k =>
-      let chunk := takeN (N.min k free) rest in
-      run_stream sched' (mkS (tlvOff s) (unread s ++ chunk)) (dropN (lenN chunk) rest) acc (consumed + lenN chunk)
-    | RReq k =>
-      let chunk := takeN (N.min k free) rest in           (* min(k, free, remaining) bytes *)
-      let n := lenN chunk in
-      let '(r, s', acc') := after_read s chunk acc in
-      match r with
-      | PBreak => run_stream sched' s' (dropN n rest) acc' (consumed + n)
-      | PErr => (SErrTooMuch, rev acc', consumed + n, s')
-      | PPanic => (SPanic, rev acc', consumed + n, s')
-      | PSpin => (SSpin, rev acc', consumed + n, s')
+    let '(r0, s0, acc0) := settle s acc in
+    match r0 with
+    | PErr => (SErrTooMuch, rev acc0, consumed, s0)
+    | PPanic => (SPanic, rev acc0, consumed, s0)
+    | PSpin => (SSpin, rev acc0, consumed, s0)
+    | PBreak =>
+      let free := c_recvBufSize - recvOff s0 in
+      if free =? 0 then (SSpin, rev acc0, consumed, s0)   (* still full: zero-length reads for ever *)
+      else match it with
+      | RIgn k =>
+        let chunk := takeN (N.min k free) rest in
+        run_stream sched' (mkS (tlvOff s0) (unread s0 ++ chunk)) (dropN (lenN chunk) rest) acc0 (consumed + lenN chunk)
+      | RReq k =>
+        let chunk := takeN (N.min k free) rest in         (* min(k, free, remaining) bytes *)
+        let n := lenN chunk in
+        let '(r, s', acc') := after_read s0 chunk acc0 in
+        match r with
+        | PBreak => run_stream sched' s' (dropN n rest) acc' (consumed + n)
+        | PErr => (SErrTooMuch, rev acc', consumed + n, s')
+        | PPanic => (SPanic, rev acc', consumed + n, s')
+        | PSpin => (SSpin, rev acc', consumed + n, s')
+        end
       end
     end
   end.
@@ -113,9 +126,11 @@ Definition run (stream : bytes) (sched : list rditem) : sres * list bytes * N * 
   run_stream sched s_init stream [] 0.
 End Framer.
 
-(* schedules whose failing reads carry no data (what net.Conn does); the theorems about ALL schedules are stated for these,
-   data arriving together with an ignorable error is covered by the differential run *)
-Definition ign_nodata (it : rditem) : Prop := match it with RIgn k => k = 0 | RReq _ => True end.
+(* After a successful read the buffer holds only the incomplete head of the next block ("settled").  A read that fails with an
+   ignorable error and carries data leaves whole blocks unparsed in the buffer until the next successful read; one that carries
+   no data changes nothing.  settled_after b sched: is the buffer settled after the schedule, given it was (b) before? *)
+Definition settled_step (b : bool) (it : rditem) : bool := match it with RReq _ => true | RIgn k => b && (k =? 0) end.
+Definition settled_after (b : bool) (sched : list rditem) : bool := fold_left settled_step sched b.
 
 (* schedule helper used by the runner: k*n *)
 Fixpoint rep_item (it : rditem) (n : nat) (tl : list rditem) : list rditem :=
